@@ -13,6 +13,8 @@ CONSTANTS
   MaxObjs = 1
   Tag = "C13-r1"
   SoftTargets <- NoSoft
+  HardTargets <- AllPaths
+  SureCases = FALSE
   OnlyLastMayFail = FALSE
 SPECIFICATION LSpec
 INVARIANTS TypeOK WellFormed Emit
